@@ -234,7 +234,39 @@ def rw_R13(text):
     return out, n
 
 
-REWRITES = {'R13': rw_R13, 'R12': rw_R12, 'R11': rw_R11, 'R10': rw_R10, 'R9': rw_R9, 'R1': rw_R1, 'R2': rw_R2, 'R3': rw_R3, 'R4': rw_R4, 'R5': rw_R5, 'R8': rw_R8}
+def rw_R14(text):
+    """E.iter().all(|e| COND)  ->  { let __s = &(E); let mut __k: usize = 0; let mut __all = true; while __all && __k < __s.len() { let e = &__s[__k]; if COND { __k += 1; } else { __all = false; } } __all }"""
+    n = 0
+    out = text
+    pos = 0
+    pat = re.compile(r'\.\s*iter\(\)\s*\.\s*all\(\s*\|\s*(\w+)\s*\|')
+    while True:
+        msk = rsx.mask(out)
+        m = pat.search(msk, pos)
+        if not m:
+            break
+        i = m.start()
+        while i > 0:
+            ch = msk[i - 1]
+            if ch.isalnum() or ch in '_.':
+                i -= 1
+            else:
+                break
+        recv = msk[i:m.start()].strip()
+        po = msk.index('(', msk.index('all', m.start()))
+        pc = rsx.match_close(msk, po)
+        cond = out[m.end():pc].strip()
+        new = '{ let __s = &(%s); let mut __k: usize = 0; let mut __all = true; while __all && __k < __s.len() { let %s = &__s[__k]; if %s { __k += 1; } else { __all = false; } } __all }' % (
+            recv, m.group(1), cond)
+        old = out[i:pc + 1]
+        lost = old.count('\n') - new.count('\n')
+        out = out[:i] + new + ('\n' * max(0, lost)) + out[pc + 1:]
+        pos = i + len(new)
+        n += 1
+    return out, n
+
+
+REWRITES = {'R14': rw_R14, 'R13': rw_R13, 'R12': rw_R12, 'R11': rw_R11, 'R10': rw_R10, 'R9': rw_R9, 'R1': rw_R1, 'R2': rw_R2, 'R3': rw_R3, 'R4': rw_R4, 'R5': rw_R5, 'R8': rw_R8}
 REWRITE_DOC = {
     'R1': 'for &T{f,..} in &E[a..b]  ->  for __i in a..b { let f = E[__i].f; (Verus: no ref patterns)',
     'R2': 'Some(&b) => b  ->  Some(b) => *b (Verus: no ref patterns)',
@@ -249,6 +281,7 @@ REWRITE_DOC = {
     'R11': 'if let Some(&x) = E { -> if let Some(__r) = E { let x = *__r; (Verus: no ref patterns)',
     'R12': 'f(.., |a, b| EXPR) -> f(.., |a, b| { EXPR }) (block body, so that a closure contract can be attached to the header)',
     'R13': 'E.iter()[.rev()].take_while(|c| COND).count() -> a counting while-loop over the same elements from the front [back] (Verus: no iterator adapters)',
+    'R14': 'E.iter().all(|e| COND) -> a while-loop over the same elements that stops at the first one failing COND (Verus: no iterator adapters)',
     'ARMSUB': 'a named match arm (delegation to regex-automata) is replaced by a call to an assumed shim; the dropped text is listed in dropped_code',
 }
 
